@@ -1,5 +1,281 @@
-"""String / fmt models (registered into Library)."""
+"""String / fmt models (registered into Library).
+
+A String is L('String')[buf] where buf is L('StrBuf') of items:
+  int            a concrete code point
+  Term (w=32)    a symbolic code point
+  Guarded        a run of items present iff a condition holds (result of merging two different-length strings)
+  NumPiece       Display of a number whose value is a term (decimal text not modelled, value kept)
+&str is SliceRef(buf, start, len, is_str=True)."""
+import re
+from . import terms as T
+from .terms import Term
+from .mirsym import (L, Ptr, SliceRef, FnRef, Guarded, NumPiece, Float, UNIT, DEAD, Unsupported)
+
+HEX = '0123456789abcdef'
+
+
+def rust_f64_display(v, precision=None):
+    """text of `format!("{}", v)` / `format!("{:.N}", v)` for a concrete f64"""
+    if precision is not None:
+        if v != v:
+            return 'NaN'
+        if v in (float('inf'), float('-inf')):
+            return 'inf' if v > 0 else '-inf'
+        return '%.*f' % (precision, v)
+    if v != v:
+        return 'NaN'
+    if v == float('inf'):
+        return 'inf'
+    if v == float('-inf'):
+        return '-inf'
+    r = repr(float(v))
+    if 'e' in r or 'E' in r:
+        # expand the exponent form into plain decimal digits
+        from decimal import Decimal
+        d = Decimal(r)
+        s = format(d, 'f')
+        r = s
+    if r.endswith('.0'):
+        r = r[:-2]
+    return r
 
 
 def register(lib):
-    pass
+    I = lib.I
+    reg = lib.reg
+
+    def new_string(items=()):
+        buf = I.mk(list(items), 'StrBuf')
+        return I.mk([buf], 'String')
+
+    lib.new_string = new_string
+
+    def str_items(v):
+        """&str / &String / String -> list of items"""
+        if type(v) is SliceRef:
+            return v.c[v.start:v.start + v.len]
+        if type(v) is Ptr:
+            return str_items(v.c[v.k])
+        if type(v) is L and v.tag == 'String':
+            return list(v[0])
+        raise Unsupported('not a string: %r' % (v,))
+
+    lib.str_items = str_items
+
+    def string_of(ptr):
+        s = lib.deref(ptr)
+        if type(s) is not L or s.tag != 'String':
+            raise Unsupported('expected &mut String, got %r' % (s,))
+        return s
+
+    def extend(s, items):
+        buf = s[0]
+        I.structural(buf)
+        buf.extend(items)
+
+    def utf8_len(items):
+        n = 0
+        for it in items:
+            if type(it) is int:
+                n += 1 if it < 0x80 else (2 if it < 0x800 else (3 if it < 0x10000 else 4))
+            else:
+                raise Unsupported('byte length of a string with symbolic pieces')
+        return n
+
+    # ---- String basics
+    @reg(r'^String::new$', 'String::new')
+    def _s_new(fr, name, args, ops):
+        return new_string()
+
+    @reg(r'^String::with_capacity$', 'String::with_capacity')
+    def _s_wc(fr, name, args, ops):
+        return new_string()
+
+    @reg(r'^String::push$', 'String::push')
+    def _s_push(fr, name, args, ops):
+        extend(string_of(args[0]), [args[1]])
+        return UNIT
+
+    @reg(r'^String::push_str$', 'String::push_str')
+    def _s_push_str(fr, name, args, ops):
+        extend(string_of(args[0]), str_items(args[1]))
+        return UNIT
+
+    @reg(r'^<String as Deref>::deref$|^String::as_str$|^<String as AsRef<str>>::as_ref$', 'String::deref')
+    def _s_deref(fr, name, args, ops):
+        s = string_of(args[0])
+        return SliceRef(s[0], 0, len(s[0]), True)
+
+    @reg(r'^String::len$|^core::str::<impl str>::len$', 'str::len')
+    def _s_len(fr, name, args, ops):
+        items = str_items(args[0])
+        try:
+            return utf8_len(items)
+        except Unsupported:
+            # only used as a capacity hint in this crate; the value is otherwise unobservable
+            I.lib_used['str::len (symbolic content: capacity hint, value havoc)'] = 1
+            return T.var('strlen_%d' % I.alloc, 64)
+
+    @reg(r'^String::is_empty$|^core::str::<impl str>::is_empty$', 'str::is_empty')
+    def _s_empty(fr, name, args, ops):
+        items = str_items(args[0])
+        if any(type(it) is Guarded for it in items):
+            raise Unsupported('is_empty of a string with guarded pieces')
+        return 1 if len(items) == 0 else 0
+
+    @reg(r'^<str as ToString>::to_string$|^<String as ToString>::to_string$|^<str as ToOwned>::to_owned$|^<String as From<&str>>::from$', 'str::to_string')
+    def _to_string(fr, name, args, ops):
+        return new_string(str_items(args[0]))
+
+    @reg(r'^std::slice::<impl \[String\]>::join::<&str>$|^alloc::slice::<impl \[String\]>::join', 'Vec<String>::join')
+    def _join(fr, name, args, ops):
+        parts = lib.as_slice(args[0]).items()
+        sep = str_items(args[1])
+        out = []
+        for i, p in enumerate(parts):
+            if i and sep:
+                out.extend(sep)
+            out.extend(str_items(p))
+        return new_string(out)
+
+    @reg(r'^<str as PartialEq>::eq$|^<String as PartialEq<str>>::eq$|^<String as PartialEq>::eq$', 'str::eq')
+    def _str_eq(fr, name, args, ops):
+        a, b = str_items(args[0]), str_items(args[1])
+        if all(type(x) is int for x in a + b):
+            return 1 if a == b else 0
+        raise Unsupported('comparison of symbolic strings')
+
+    @reg(r'^std::str::<impl str>::replace::<&str>$|^alloc::str::<impl str>::replace', 'str::replace')
+    def _replace(fr, name, args, ops):
+        hay, pat, to = str_items(args[0]), str_items(args[1]), str_items(args[2])
+        if not all(type(x) is int for x in pat) or not pat:
+            raise Unsupported('replace with symbolic/empty pattern')
+        out = []
+        i = 0
+        n, m = len(hay), len(pat)
+        while i < n:
+            if i + m <= n and all(type(hay[i + j]) is int and hay[i + j] == pat[j] for j in range(m)):
+                out.extend(to)
+                i += m
+            else:
+                if type(hay[i]) is not int:
+                    # a symbolic piece could complete a match of the pattern: only safe if the pattern cannot
+                    # overlap it; the patterns in this crate are "{N}" on a literal format string
+                    if type(hay[i]) is Term:
+                        raise Unsupported('replace over symbolic characters')
+                out.append(hay[i])
+                i += 1
+        return new_string(out)
+
+    # ---- fmt
+    @reg(r'^core::fmt::rt::Argument::<>::new_(display|lower_hex|debug|upper_hex)::<(.*)>$|^core::fmt::rt::Argument::new_(display|lower_hex|debug|upper_hex)::<(.*)>$', 'fmt::Argument::new_*')
+    def _arg_new(fr, name, args, ops):
+        m = re.search(r'new_(\w+)::<(.*)>$', name)
+        return I.mk([m.group(1), m.group(2), args[0]], 'FmtArg')
+
+    @reg(r'^Arguments::<>::new::<\d+, \d+>$|^Arguments::new::<\d+, \d+>$|^core::fmt::Arguments::<>::new::<', 'fmt::Arguments::new')
+    def _args_new(fr, name, args, ops):
+        tmpl = lib.as_slice(args[0]).items()
+        av = lib.as_slice(args[1]).items()
+        return I.mk([list(tmpl), list(av)], 'Arguments')
+
+    @reg(r'^Arguments::<>::from_str(_nonconst)?$|^Arguments::from_str(_nonconst)?$', 'fmt::Arguments::from_str')
+    def _args_from_str(fr, name, args, ops):
+        return I.mk([None, list(str_items(args[0]))], 'Arguments')
+
+    def render_value(kind, ty, ptr, prec=None, width=None, zero=False):
+        v = lib.deref(ptr)
+        while type(v) is Ptr:
+            v = v.c[v.k]
+        ty = ty.strip()
+        if kind == 'lower_hex':
+            if ty == 'u8' and width == 2 and zero:
+                if type(v) is int:
+                    return [ord(c) for c in '%02x' % v]
+                hi = T.lut([ord(HEX[i >> 4]) for i in range(256)], v, 32)
+                lo = T.lut([ord(HEX[i & 15]) for i in range(256)], v, 32)
+                return [hi, lo]
+            raise Unsupported('hex formatting of %s (width %s)' % (ty, width))
+        if kind != 'display':
+            raise Unsupported('fmt trait %s' % kind)
+        if ty in ('usize', 'u8', 'u16', 'u32', 'u64'):
+            if type(v) is int:
+                return [ord(c) for c in str(v)]
+            return [NumPiece('usize', v, v.w)]
+        if ty == 'char':
+            return [v]
+        if ty in ('&str', 'str', 'String', '&String', '&&str'):
+            return list(str_items(v))
+        if ty == 'f64':
+            if type(v) is Float and isinstance(v.v, float):
+                return [ord(c) for c in rust_f64_display(v.v, prec)]
+            return [NumPiece('f64' if prec is None else 'f64.%d' % prec, v)]
+        raise Unsupported('Display for %s' % ty)
+
+    lib.render_value = render_value
+
+    def render(a):
+        """Arguments -> list of string items"""
+        tmpl, av = a
+        if tmpl is None:
+            return list(av)
+        out = []
+        i = 0
+        argi = 0
+        n = len(tmpl)
+        while True:
+            b = tmpl[i]
+            i += 1
+            if b == 0:
+                break
+            if b < 0x80:
+                out.extend(ord(c) for c in bytes(tmpl[i:i + b]).decode('utf-8'))
+                i += b
+            elif b == 0x80:
+                ln = tmpl[i] | (tmpl[i + 1] << 8)
+                i += 2
+                out.extend(ord(c) for c in bytes(tmpl[i:i + ln]).decode('utf-8'))
+                i += ln
+            else:
+                flags = None
+                width = None
+                prec = None
+                if b & 1:
+                    flags = tmpl[i] | (tmpl[i + 1] << 8) | (tmpl[i + 2] << 16) | (tmpl[i + 3] << 24)
+                    i += 4
+                if b & 2:
+                    width = tmpl[i] | (tmpl[i + 1] << 8)
+                    i += 2
+                if b & 4:
+                    prec = tmpl[i] | (tmpl[i + 1] << 8)
+                    i += 2
+                if b & 8:
+                    argi = tmpl[i] | (tmpl[i + 1] << 8)
+                    i += 2
+                if b & 48:
+                    raise Unsupported('dynamic width/precision')
+                arg = av[argi]
+                argi += 1
+                zero = bool(flags is not None and (flags >> 24) & 1)
+                out.extend(render_value(arg[0], arg[1], arg[2], prec, width, zero))
+        return out
+
+    lib.render = render
+
+    @reg(r'^format$|^std::fmt::format$|^alloc::fmt::format$', 'fmt::format')
+    def _format(fr, name, args, ops):
+        return new_string(render(args[0]))
+
+    @reg(r'^<f64 as ToString>::to_string$|^<usize as ToString>::to_string$', 'ToString (Display)')
+    def _num_to_string(fr, name, args, ops):
+        ty = re.match(r'^<(\w+) as', name).group(1)
+        return new_string(render_value('display', ty, args[0]))
+
+    def render_debug(a):
+        try:
+            items = render(a)
+            return ''.join(chr(x) if type(x) is int else '?' for x in items)
+        except Exception:
+            return 'formatted panic message'
+
+    lib.render_debug = render_debug
